@@ -939,7 +939,7 @@ class Taylor3D(object):
         :return c: list((n, lmax, powexpansion)), inverse of a
         """
         # a little pythonic magic to work with *either* a list, or an object with a coefflist
-        acoeff = sorted(getattr(a, 'coefflist', a),
+        acoeff = sorted([(n, l, np.asarray(c, dtype=complex)) for n, l, c in getattr(a, 'coefflist', a)],
                         key=cls.__sortkey)  # fallback to a if not there... which assumes it's a list
         lead = acoeff[0]
         if lead[1] != 0:
